@@ -45,6 +45,15 @@ def case(draw):
     if draw(st.integers(0, 7)) == 0:
         names = [gen.LONGNAME] + names[1:]        # % and # expand to a 200-character name
     files = {n: draw(gen.buffer_text()) for n in names}
+    if draw(st.integers(0, 9)) == 0:
+        # a multi-byte character astride the 512-byte message buffer / 128-byte name buffers: messages that quote the line or the
+        # file name are cut inside it
+        k = draw(st.sampled_from([505, 508, 509, 510, 511, 512, 120, 122, 124, 125, 126, 1020]))
+        files[names[0]] = [("a" * k) + draw(st.sampled_from(["€", "é", "😀", "日本"])) + "b"] + files[names[0]][:3]
+    if nfiles > 1 and draw(st.integers(0, 9)) == 0:
+        ln = "a" * draw(st.sampled_from([100, 120, 123, 124, 125, 126, 200])) + draw(st.sampled_from(["€", "é", "😀"]))
+        files[ln] = files.pop(names[1])
+        names = [names[0], ln] + names[2:]
     if draw(st.integers(0, 5)) == 0:
         files.pop(names[0])           # first file does not exist
     if mode == "ex":
@@ -54,9 +63,12 @@ def case(draw):
         script = draw(gen.vi_keys)
         rows, cols = draw(gen.window)
     opts = draw(st.lists(st.sampled_from(["se noai", "se noic", "se hll", "se nohl", "se order=2", "se order=0", "se td=-2", "se td=-1",
-                                          "se td=1", "se td=2", "se lim=5", "se lim=0", "se noshape", "se hist=3", "se ru=0", "se ru=2", "se ru=4",
+                                          "se td=1", "se td=2", "se lim=5", "se lim=0", "se noshape", "se hist=3", "se hist=1", "se hist=2", "se ru=0", "se ru=2", "se ru=4",
                                           "se aw", "se wa", "cm fa", "ft c"]), max_size=3))
-    return {"mode": mode, "files": files, "argv": names, "script": script, "rows": rows, "cols": cols, "opts": opts}
+    c = {"mode": mode, "files": files, "argv": names, "script": script, "rows": rows, "cols": cols, "opts": opts}
+    # ("loud": ex mode with prompts, vi -e without -s, is only used by regression replays: on a pipe its prompt loop does not
+    #  reliably reach the quit trailer, which would read as a hang)
+    return c
 
 
 def strategy(tier):
@@ -94,7 +106,7 @@ def run_case(env, c):
     optlines = "".join(o + "\n" for o in c["opts"])
     if c["mode"] == "ex":
         stdin = (EX_PREFIX + optlines + c["script"]).encode("utf-8") + b"\n" + runner.EX_TRAILER
-        argv = ["-s", "-e"] + c["argv"]
+        argv = (["-e"] if c.get("loud") else ["-s", "-e"]) + c["argv"]       # (loud: ex mode with its messages and prompts)
     else:
         stdin = (VI_PREFIX + "".join(":" + o + "\n" for o in c["opts"]) + c["script"]).encode("utf-8") + runner.VI_TRAILER
         argv = ["-v"] + c["argv"]
